@@ -370,6 +370,22 @@ class Interp:
             return
         if isinstance(st, ast.Pass):
             return
+        if isinstance(st, ast.Delete):
+            for t in st.targets:
+                if isinstance(t, ast.Subscript):
+                    base = self._deref(self.expr(t.value, env))
+                    key = self.expr(t.slice, env)
+                    if not isinstance(base, (dict, list)):
+                        raise Unsupported("del on a non-container")
+                    try:
+                        del base[key]
+                    except (KeyError, IndexError, TypeError) as e:
+                        raise Raised(type(e).__name__, "", st)
+                elif isinstance(t, ast.Name) and t.id in env and dict.__contains__(env, t.id):
+                    dict.__delitem__(env, t.id)
+                else:
+                    raise Unsupported("del form")
+            return
         if isinstance(st, ast.Assign):
             v = self.expr(st.value, env)
             for t in st.targets:
